@@ -174,7 +174,7 @@ def matmul_dense_mismatch(ob, d, k, nb):
         'qtt_not_list', 'qtt_shape', 'getitem_too_few', 'getitem_too_many', 'getitem_int_range', 'getitem_float', 'getitem_bool', 'mul_multi_element', 'div_multi_element', 'apply_mask_extra_columns', 'sum_duplicate_axes', 'sum_bool_axis', 'getitem_two_ellipsis',
         'getitem_int_on_order2', 'getitem_slice_on_order2', 'getitem_ttm_ellipsis', 'getitem_ttm_mixed', 'set_core_index', 'set_core_rank',
         'fast_matvec_not_tt', 'fast_matvec_kinds', 'fast_matvec_shape', 'fast_matvec_order', 'mprod_list_len', 'getitem_ttm_odd', 'to_qtt_not_power', 'to_qtt_tensor_not_power', 'to_qtt_ttm_rect', 'ctor_bad_source', 'getitem_str',
-        'getitem_ttm_single_int', 'getitem_ttm_single_slice', 'getitem_bare_bool', 'ctor_shape_count', 'ctor_shape_count_numpy', 'ctor_shape_count_ttm', 'round_rmax_zero', 'round_rmax_list_zero', 'round_rmax_negative')],
+        'getitem_ttm_single_int', 'getitem_ttm_single_slice', 'getitem_bare_bool', 'ctor_shape_count', 'ctor_shape_count_numpy', 'ctor_shape_count_ttm', 'round_rmax_zero', 'round_rmax_list_zero', 'round_rmax_negative', 'round_rmax_list_short', 'round_rmax_list_long')],
           expect='raise', replay='misuse')
 def method_misuse(ob, case):
     ex = ob.ex
@@ -241,6 +241,10 @@ def method_misuse(ob, case):
         ob.ret = ex.optable.subscript(ex, ob.tt('A', 1, ttm=True), slice(0, 1))
     elif case == 'getitem_bare_bool':
         ob.ret = ex.optable.subscript(ex, ob.tt('x', 1), True)
+    elif case in ('round_rmax_list_short', 'round_rmax_list_long'):
+        # a per-rank list of maximum ranks has d+1 entries (boundary ranks included)
+        x = ob.tt('x', 3)
+        ob.ret = ex.call(ex.getattr(x, 'round'), [], {'eps': 1e-10, 'rmax': [1, 2, 1] if case == 'round_rmax_list_short' else [1, 2, 2, 1, 7, 7]})
     elif case in ('round_rmax_zero', 'round_rmax_list_zero', 'round_rmax_negative'):
         # a TT rank is at least 1: a maximum rank below 1 is not a valid rank bound
         x = ob.tt('x', 2)
